@@ -133,6 +133,17 @@ CLAIMED = {
             "values in [0,1]; from_gaussian is a Gaussian centred in the box plus shift.",
             NOTE + "Extensivity of morphology with a centred structure, rescaling providers (zoom) and Otsu thresholding "
             "are trusted / not under contract."),
+    "C20": ("DESIGN.md section 2 / C20",
+            "Deductive for the chunk bookkeeping, for an arbitrary chunk of an arbitrary chunking (generic block): a pick at "
+            "local index l of a block extended by the overlap depth is reported at (chunk_start + l - depth_used) * scale "
+            "with its own rotation and score; a block reports exactly its picks whose voxel lies in its own chunk (none "
+            "from the overlap margins, none lost); LoG / DoG parameters are converted to pixels with the scale; LoG / DoG "
+            "picks carry the identity rotation; the template-bank index is looked up in the searched rotations. The "
+            "clause 'overlap depth covers the dependency radius' fails and is a recorded known finding.",
+            NOTE + "That LoG / DoG / ZNCC maxima sit on the particles is numerical (scipy filters, labelling, centre of mass: "
+            "trusted, abstract picks); dask's map_overlap contract (block extension, array-location, depth as int / tuple / "
+            "list) is trusted as observed with the installed dask; BaseTemplateMatcher.get_params_and_depth and the ZNCC "
+            "landscape offset are not under contract."),
 }
 NOT_YET = "check not built yet in this session (work in progress; see DESIGN.md section 7 for the order)"
 
